@@ -8,13 +8,27 @@ def create_diff(original_lines: list[str], new_lines: list[str]) -> str:
     return difflines_to_str(diff_lines)
 
 
+def split_lines(code: str) -> list[str]:
+    """
+    Split code into lines the way diff consumers (e.g. `patch`) do: at line feeds only.
+
+    `str.splitlines` also splits at form feeds, vertical tabs, unicode line separators
+    and lone carriage returns, which can all occur inside a line of Python source.
+    """
+    lines = code.split("\n")
+    result = [line + "\n" for line in lines[:-1]]
+    if lines[-1]:
+        result.append(lines[-1])
+    return result
+
+
 def create_diff_from_tree(original_tree: cst.Module, new_tree: cst.Module) -> str:
     """
     Create a diff between the original and output trees.
     """
     return create_diff(
-        original_tree.code.splitlines(keepends=True),
-        new_tree.code.splitlines(keepends=True),
+        split_lines(original_tree.code),
+        split_lines(new_tree.code),
     )
 
 
